@@ -38,6 +38,7 @@ type Engine struct {
 	readerCache map[*ssa.Function]bool
 	privCache map[ssa.Value]bool
 	allocCache map[*ssa.Function]bool
+	emitters  map[*ssa.Function]string
 }
 
 func (e *Engine) subIndex(key string) int {
@@ -376,6 +377,10 @@ func (e *Engine) snippetNode(pos token.Pos, fn *ssa.Function, n ssa.Node) string
 			}
 		case *ast.IncDecStmt:
 			if y.TokPos == pos {
+				best = y.X
+			}
+		case *ast.RangeStmt:
+			if y.For == pos || y.TokPos == pos {
 				best = y.X
 			}
 		case *ast.Ident:
